@@ -4,7 +4,9 @@
 (*                                                                         *)
 (*   documented meaning (readme "Functor helpers"):                        *)
 (*     _eN                  returns the N-th right-side value itself       *)
-(*     construct<T, I>      builds T from the I-th value                   *)
+(*     construct<T, I>      builds T from the I-th value: "this constructs *)
+(*                          something_type{value}" - for a list type (the  *)
+(*                          readme's list_type) the list of that ONE value *)
 (*     push_back<C, A>      appends the A-th value to the C-th (a          *)
 (*     emplace_back<C, A>     container) and returns that container, moved *)
 (*     val(v) / create<T>   return v / a default T whatever the arguments  *)
@@ -40,6 +42,8 @@ Cases == {c \in ElementCases \cup ConstructCases \cup PairCases("push_back") \cu
                  \cup {[h |-> "val", n |-> n, i |-> 0, j |-> 0] : n \in 0..MaxArity} \cup {[h |-> "create", n |-> n, i |-> 0, j |-> 0] : n \in 0..MaxArity} : Valid(c)}
 
 \* documented meaning: which argument is returned / read / appended to which
+\* what construct<list_type, I> yields: the one-element list of the I-th value (positions stand for the values)
+Built(c) == IF c.h = "construct" THEN <<c.i>> ELSE <<>>
 Doc(c) == CASE c.h = "element"   -> [ret |-> c.i, reads |-> {}, cont |-> 0, elem |-> 0]
             [] c.h = "construct" -> [ret |-> 0, reads |-> {c.i}, cont |-> 0, elem |-> 0]
             [] c.h \in {"push_back", "emplace_back"} -> [ret |-> c.i, reads |-> {c.j}, cont |-> c.i, elem |-> c.j]
@@ -63,5 +67,5 @@ Next == UNCHANGED hc
 Spec == Init /\ [][Next]_hc
 
 TemplateMatchesDoc == Tpl(hc) = Doc(hc)
-CaseReported == PrintT(<<"HCASE", ToJson([h |-> hc.h, n |-> hc.n, i |-> hc.i, j |-> hc.j, ret |-> Doc(hc).ret, cont |-> Doc(hc).cont, elem |-> Doc(hc).elem])>>)
+CaseReported == PrintT(<<"HCASE", ToJson([h |-> hc.h, n |-> hc.n, i |-> hc.i, j |-> hc.j, ret |-> Doc(hc).ret, cont |-> Doc(hc).cont, elem |-> Doc(hc).elem, built |-> Built(hc)])>>)
 =============================================================================
